@@ -19,6 +19,14 @@ Theorem C17_close_at_most_once : forall ops s w,
   (count_closes (crun s w ops) <= 1)%nat /\ (closed s = true -> count_closes (crun s w ops) = 0%nat).
 Proof. exact closes_at_most_once. Qed.
 
+(* the first kernel error is what WaitForPendingACKs returns: the ACKs before it are consumed in order,
+   the failed request leaves the list as well, later requests stay pending with their ACKs unread *)
+Theorem C17_wait_returns_first_error : forall s pre q post script mid rest errno,
+  acked pre script mid -> q <> 0 -> (0 < errno < 2^31)%Z -> answers q errno mid rest ->
+  wait_acks s script (pre ++ q :: post) =
+    ({| pending := post; clear_pid := clear_pid s; closed := closed s; nseq := nseq s |}, rest, Some (EErrno errno)).
+Proof. exact wait_first_error. Qed.
+
 (* the first Close closes the socket, clearing the audit PID first iff SetPID was used *)
 Theorem C17_first_close : forall s w, closed s = false ->
   let '(s', _, (_, ws, cl)) := cstep s w OClose in
@@ -28,5 +36,6 @@ Theorem C17_first_close : forall s w, closed s = false ->
 Proof. exact first_close. Qed.
 
 Print Assumptions C17_wait_consumes_once_in_order.
+Print Assumptions C17_wait_returns_first_error.
 Print Assumptions C17_close_at_most_once.
 Print Assumptions C17_first_close.
